@@ -16,7 +16,7 @@ import (
 
 func init() {
 	register(&Prop{ID: "C01", Run: runC01, Instr: true, DeathIsViolation: true,
-		Rule: "byte strings from four exhaustively enumerated spaces (S1 all short strings; S2 header x length lattice incl. the uint16 wrap points; S3 the <=2-deviation neighbourhood of every valid seed encoding: every position x 256 values, every 16-bit control field x 65536 values, every prefix, extensions, pairs of control octets x boundary bytes; S4 amplification templates up to 262144 octets), each offered to the 24 decode entry points. Non-trivial = the call was executed under the panic, step-budget and allocation-budget oracles",
+		Rule: "byte strings from four exhaustively enumerated spaces (S1 all short strings; S2 header x length lattice incl. the uint16 wrap points; S3 the <=2-deviation neighbourhood of every valid seed encoding: every position x 256 values, every 16-bit control field x 65536 values, every prefix, extensions, pairs of control octets x boundary bytes; S4 amplification templates up to 262144 octets), each offered to the 24 decode entry points. A case is one input (offered to 2..24 entry points; calls are counted as transitions); non-trivial = it was executed under the panic, step-budget and allocation-budget oracles",
 		Assumptions: []string{
 			"step budget 1e7 + 1e4*len statements on the statement-instrumented build decides 'loops without bound' deterministically (heaviest legitimate decode measured: 2.6e6 statements for 65 KB)",
 			"allocation budget 8 MiB + 128*len bytes of total allocation per call (worst legitimate ratio measured 58x)",
@@ -74,7 +74,6 @@ func (x *c01) call(e *Entry, in []byte) {
 		c.Report(keyJoin("C01", e.Name, "input-modified"), e.Name+" modifies its input buffer",
 			bx.Replay{Entry: e.Name, InputHex: bx.Hex(in), Expected: "input unchanged", Observed: bx.Short(priv)})
 	}
-	c.NT()
 	x.batch = append(x.batch, c01rec{e, priv})
 	x.pending += len(priv) + 64
 	if len(x.batch) >= 256 || x.pending > 32<<20 {
@@ -127,10 +126,12 @@ type byteSink interface {
 	addressed(pt int, b []byte)
 }
 
+// (a case is one input; it is non-trivial once it has been executed under the three oracles)
 func (x *c01) all(b []byte) {
 	for i := range Entries {
 		x.call(&Entries[i], b)
 	}
+	x.c.NT()
 }
 
 func (x *c01) near(typ string, b []byte) {
@@ -138,6 +139,7 @@ func (x *c01) near(typ string, b []byte) {
 	if e := EntryByName("own:" + typ); e != nil {
 		x.call(e, b)
 	}
+	x.c.NT()
 }
 
 func (x *c01) addressed(pt int, b []byte) {
@@ -146,6 +148,7 @@ func (x *c01) addressed(pt int, b []byte) {
 			x.call(e, b)
 		}
 	}
+	x.c.NT()
 }
 
 func runC01(c *bx.Ctx) {
